@@ -3,7 +3,7 @@ file type with extension, path (directory), explicit output names, arrays and
 typed maps of files, structs containing files, nested combinations, null and
 missing files, symbolic links, strings that hold paths."""
 from mro import (call, const, pipeline, program, ref, self_, split, stage, struct, INST, FILE, FILES, FMAP, FSTR, FSTRUCT,
-                 FDIR, FMSTRUCT, FASTRUCT, FILES11, FMISSING, FLINK, FLINK2, FSM, FPLINK, FOUTSIDE, FMAPK, FILES2D, FSO, FINSIDE)
+                 FDIR, FMSTRUCT, FASTRUCT, FILES11, FMISSING, FLINK, FLINK2, FSM, FPLINK, FOUTSIDE, FMAPK, FILES2D, FSO, FINSIDE, FILES3D)
 
 FT = ("txt", "bam.bai")
 
@@ -41,6 +41,12 @@ def catalogue():
     # pipestance and one outside of it
     FSOT = struct("FSO", "file f, file o")
     P.append(one("po_struct_outside", [FSOT], "FSO s, file g", {"s": FSO, "g": FILE}))
+    P.append(one("po_arr3d", [], "txt[][][] cube, file[][][] raw", {"cube": FILES3D, "raw": FILES3D}))
+    # one directory returned under two names
+    q2 = program("po_dir_twice", [], [stage("P", "int x", "path d, int n", {"d": FDIR, "n": const(1)})],
+                 [pipeline("TOP", "int x", "path d, path again, int n", [call("P", binds={"x": self_("x")})],
+                           {"d": ref("P", "d"), "again": ref("P", "d"), "n": ref("P", "n")})], "TOP", {"x": 1}, filetypes=FT)
+    P.append(q2)
     # a directory and a file inside it returned side by side, in both orders of declaration
     P.append(one("po_file_in_dir", [], "path d, txt inner, int n", {"d": FDIR, "inner": FINSIDE, "n": const(1)}))
     P.append(one("po_file_in_dir_rev", [], "txt inner, path d, int n", {"inner": FINSIDE, "d": FDIR, "n": const(1)}))
